@@ -266,7 +266,7 @@ func (s *S) reschedule(self *thread) {
 			}
 		}
 		timer := s.nextTimer()
-		canFire := timer != nil && s.fired < s.opt.MaxTimers
+		canFire := timer != nil
 		n := len(en)
 		if canFire {
 			n++
@@ -463,4 +463,33 @@ func (s *S) Quiescent() bool {
 		}
 	}
 	return true
+}
+
+// TouchAppend records the element writes an append(a, n values) performs when it
+// stays inside a's backing array.
+func TouchAppend[T any](a []T, n int) {
+	if sched() == nil {
+		return
+	}
+	if len(a)+n <= cap(a) {
+		full := a[:cap(a)]
+		for k := 0; k < n; k++ {
+			Touch(&full[len(a)+k], "elem", true)
+		}
+	}
+}
+
+// TouchCopy records the element accesses of copy(dst, src).
+func TouchCopy[T any](dst, src []T) {
+	if sched() == nil {
+		return
+	}
+	n := len(dst)
+	if len(src) < n {
+		n = len(src)
+	}
+	for k := 0; k < n; k++ {
+		Touch(&src[k], "elem", false)
+		Touch(&dst[k], "elem", true)
+	}
 }
